@@ -23,6 +23,7 @@ pub fn l_schema() -> Schema {
                     at("mgr", user(), true),
                     at("info", Ty::Rec(vec![at("boss", user(), false), at("n", Ty::Long, true)]), true),
                     at("alt", user(), false),
+                    at("peers", Ty::Set(Box::new(user())), true),
                 ],
                 tags: Some(user()),
                 enum_ids: None,
@@ -49,6 +50,13 @@ pub fn l_schema() -> Schema {
 fn user_ent(age: i64, mgr: Uid, boss: Option<Uid>, alt: Option<Uid>, tag: Option<Uid>, parents: Vec<Uid>) -> Ent {
     let mut e = Ent::default();
     e.attrs.insert("age".into(), Val::Long(age));
+    // peers: a set of entities (never dereferenceable, but `in` / contains observe it); differs per user
+    let peers = match age {
+        3 => vec![Val::Uid(ub()), Val::Uid(uc())],
+        0 => vec![],
+        _ => vec![Val::Uid(ua())],
+    };
+    e.attrs.insert("peers".into(), Val::set(peers));
     e.attrs.insert("mgr".into(), Val::Uid(mgr));
     let mut info = BTreeMap::new();
     info.insert("n".to_string(), Val::Long(1));
@@ -159,6 +167,9 @@ fn roots() -> Vec<Path> {
         Path { expr: E::Var(Var::Resource), guards: vec![], ty: "Doc", steps: 0, uses_tags: false },
         Path { expr: E::attr(cx.clone(), "who"), guards: vec![E::has(cx.clone(), "who")], ty: "User", steps: 0, uses_tags: false },
         Path { expr: E::attr(E::attr(cx, "r"), "u"), guards: vec![], ty: "User", steps: 0, uses_tags: false },
+        // entity literals as roots (level validation refuses to dereference them; manifests list them)
+        Path { expr: E::Ent(ub()), guards: vec![], ty: "User", steps: 0, uses_tags: false },
+        Path { expr: E::Ent(gg()), guards: vec![], ty: "Group", steps: 0, uses_tags: false },
     ]
 }
 
@@ -178,6 +189,9 @@ fn extend(p: &Path) -> Vec<Path> {
             out.push(mk(E::attr(E::attr(x.clone(), "info"), "boss"), Some(E::has(E::attr(x.clone(), "info"), "boss")), "User", false));
             out.push(mk(E::attr(x.clone(), "alt"), Some(E::has(x.clone(), "alt")), "User", false));
             out.push(mk(E::bin(BinOp::GetTag, x.clone(), E::str("t")), Some(E::bin(BinOp::HasTag, x.clone(), E::str("t"))), "User", true));
+        }
+        "Group" => {
+            out.push(mk(E::attr(x.clone(), "lead"), Some(E::has(x.clone(), "lead")), "User", false));
         }
         "Doc" => {
             out.push(mk(E::attr(x.clone(), "owner"), None, "User", false));
@@ -266,6 +280,25 @@ pub fn policies(tier: Tier) -> Vec<LPol> {
             );
             // contains over a set of entities built from the path
             push(format!("steps{}:set-contains", p.steps), guarded(g, E::bin(BinOp::Contains, E::Set(vec![x.clone(), E::Ent(ua())]), E::attr(E::Var(Var::Principal), "mgr"))), p.uses_tags, &mut out);
+            // a set-of-entities attribute at the end of the path
+            let pr = E::Var(Var::Principal);
+            push(format!("steps{}:peers-contains", p.steps), guarded(g, E::bin(BinOp::Contains, E::attr(x.clone(), "peers"), pr.clone())), p.uses_tags, &mut out);
+            push(format!("steps{}:in-peers", p.steps), guarded(g, E::bin(BinOp::In, pr.clone(), E::attr(x.clone(), "peers"))), p.uses_tags, &mut out);
+            push(format!("steps{}:mgr-in-peers", p.steps), guarded(g, E::bin(BinOp::In, E::attr(pr.clone(), "mgr"), E::attr(x.clone(), "peers"))), p.uses_tags, &mut out);
+            push(format!("steps{}:peers-containsAny", p.steps), guarded(g, E::bin(BinOp::ContainsAny, E::attr(x.clone(), "peers"), E::Set(vec![E::attr(pr.clone(), "mgr"), E::Ent(uc())]))), p.uses_tags, &mut out);
+            push(format!("steps{}:peers-isEmpty", p.steps), guarded(g, E::IsEmpty(b(E::attr(x.clone(), "peers")))), p.uses_tags, &mut out);
+            // negation, is-in, equality between two dereferences, deeper dereference after a record literal
+            push(format!("steps{}:not-in", p.steps), guarded(g, E::not(E::bin(BinOp::In, x.clone(), E::Ent(gg())))), p.uses_tags, &mut out);
+            push(format!("steps{}:is-in", p.steps), guarded(g, E::IsIn(b(x.clone()), "User".into(), b(E::Ent(gh())))), p.uses_tags, &mut out);
+            push(format!("steps{}:mgr-eq-principal", p.steps), guarded(g, E::bin(BinOp::Eq, E::attr(x.clone(), "mgr"), pr.clone())), p.uses_tags, &mut out);
+            push(format!("steps{}:record-literal:mgr.age", p.steps), guarded(g, E::bin(BinOp::Gt, E::attr(E::attr(E::attr(rec.clone(), "f"), "mgr"), "age"), E::Long(0))), p.uses_tags, &mut out);
+            // has on a nested record of the entity; if whose test dereferences and whose branches do not
+            push(format!("steps{}:info-has-boss", p.steps), guarded(g, E::has(E::attr(x.clone(), "info"), "boss")), p.uses_tags, &mut out);
+            push(format!("steps{}:if-test", p.steps), guarded(g, E::ite(E::bin(BinOp::Gt, E::attr(x.clone(), "age"), E::Long(1)), E::bin(BinOp::Eq, pr.clone(), E::Ent(ua())), E::Bool(true))), p.uses_tags, &mut out);
+            // entity literal in one branch, the path in the other
+            let ite3 = E::ite(E::bin(BinOp::Gt, E::attr(pr.clone(), "age"), E::Long(1)), E::Ent(uc()), x.clone());
+            push(format!("steps{}:if-literal-branch:eq", p.steps), guarded(g, E::bin(BinOp::Eq, ite3.clone(), E::attr(pr.clone(), "mgr"))), p.uses_tags, &mut out);
+            push(format!("steps{}:if-literal-branch:age", p.steps), guarded(g, E::bin(BinOp::Gt, E::attr(ite3, "age"), E::Long(0))), p.uses_tags, &mut out);
         }
     }
     out
